@@ -258,6 +258,10 @@ def corpus_for(name, h0):
                     v |= 1
                 try:
                     out.append((v, h0.using(rounds=v).hash(PW, **ctx_kw(h0))))
+                    if H.base_name(h0) == "bcrypt":
+                        # stored hashes of the older idents are judged by the same cost window
+                        for idn in ("2a", "2y"):
+                            out.append((v, h0.using(rounds=v, ident=idn).hash(PW, **ctx_kw(h0))))
                 except ValueError:
                     pass
         else:
